@@ -949,7 +949,7 @@ class _ExecutorManagerThread(threading.Thread):
                     # never receive their sentinel. Do not wait for those.
                     p.join(timeout=0.1)
                     while p.is_alive():
-                        if any(
+                        if self.executor_flags.broken is not None or any(
                             q.exitcode not in (None, 0) for q in all_processes
                         ):
                             kill_process_tree(p)
